@@ -42,6 +42,9 @@ def uapi():
             "prSetNoNewPrivs": d(pr, "PR_SET_NO_NEW_PRIVS"), "errnoEPERM": d(eb, "EPERM"), "errnoENOSYS": d(en, "ENOSYS")}
 
 
+LINUX_FAMILY = ("linux", "android")   # GOOS=android satisfies the `linux` build constraint: the real loader is compiled there
+
+
 def enosys_of(goarch):
     # arch/mips/include/uapi/asm/errno.h: ENOSYS 89; every other Go linux port uses asm-generic (38)
     return 89 if goarch.startswith("mips") else 38
@@ -55,7 +58,16 @@ def check(ctx, replay=None):
     all_targets = out.split()
     if len(all_targets) < 30:
         raise vlib.Machinery("go tool dist list gave %d targets" % len(all_targets))
-    targets = all_targets if th else [t for t in QUICK if t in all_targets]
+    # quick: every linux GOARCH and one target of every other GOOS (so that a constant or stub that is wrong for one
+    # operating system family only is seen on every change); thorough: everything
+    quick = [t for t in all_targets if t.startswith("linux/")]
+    seen_os_init = {"linux"}
+    seen_os = set()
+    for t in QUICK + all_targets:
+        if t in all_targets and not t.startswith("linux/") and t.split("/")[0] not in seen_os:
+            seen_os.add(t.split("/")[0])
+            quick.append(t)
+    targets = all_targets if th else quick
     if replay:
         targets = json.load(open(replay)).get("targets", targets)
 
@@ -88,8 +100,8 @@ def check(ctx, replay=None):
             nbuilt += 1
         lk = lookups[f["goarch"]]
         rows.append({"goos": f["goos"], "goarch": f["goarch"], "builds": builds, "consts": f.get("consts") or {},
-                     "stubs": [{"func": s["func"], "returns": s.get("returns") or [], "calls": s["calls"]} for s in (f.get("stubs") or [])] if f["goos"] != "linux" else [],
-                     "imports": (f.get("imports") or []) if f["goos"] != "linux" else [],
+                     "stubs": [{"func": s["func"], "returns": s.get("returns") or [], "calls": s["calls"]} for s in (f.get("stubs") or [])] if f["goos"] not in LINUX_FAMILY else [],
+                     "imports": (f.get("imports") or []) if f["goos"] not in LINUX_FAMILY else [],
                      "hastable": bool(lk["var"]), "getinfo_err": lk["err"]})
     if nbuilt < len(targets) * 0.6:
         raise vlib.Machinery("only %d of %d targets build" % (nbuilt, len(targets)))
@@ -101,13 +113,13 @@ def check(ctx, replay=None):
         t = "%s/%s" % (r["goos"], r["goarch"])
         for n, want in u.items():
             w = want
-            if n == "errnoENOSYS" and r["goos"] == "linux":
+            if n == "errnoENOSYS" and r["goos"] in LINUX_FAMILY:
                 w = enosys_of(r["goarch"])
             got = r["consts"].get(n)
             ctx.cov["evaluations"] += 1
             if got != str(w):
                 viol.append(("%s: %s = %s, the kernel's value is %d" % (t, n, got, w), {"target": t, "const": n}))
-        if r["goos"] != "linux":
+        if r["goos"] not in LINUX_FAMILY:
             if len(r["stubs"]) != 3:
                 viol.append(("%s: expected the three loader stubs, found %s" % (t, [s["func"] for s in r["stubs"]]), {"target": t}))
             for s in r["stubs"]:
